@@ -39,11 +39,13 @@ var e2ePortCounter int
 
 // pickPorts reserves five free ports in a range owned by this shard.
 func pickPorts() (e2ePorts, error) {
+	// blocks below the ephemeral port range (32768..): exporter sockets and sink connections of parallel
+	// shards get ephemeral ports and must not be able to take a port between this probe and the collector's bind
 	shard, _ := strconv.Atoi(os.Getenv("VERIF_SHARD_INDEX"))
-	base := 20000 + (shard%30)*1200
+	base := 10000 + (shard%22)*1000
 	for try := 0; try < 200; try++ {
 		e2ePortCounter++
-		p0 := base + (e2ePortCounter%230)*5
+		p0 := base + (e2ePortCounter%195)*5
 		ok := true
 		var held []io.Closer
 		for k := 0; k < 4 && ok; k++ {
@@ -81,8 +83,22 @@ type e2eConfig struct {
 	Env      []string
 }
 
-// startVflow writes the configuration into dir and starts the collector.
+// startVflow writes the configuration into dir and starts the collector; a start that fails because a port
+// was taken by somebody else in the meantime is repeated with another port block.
 func startVflow(dir string, ports e2ePorts, cfg e2eConfig, race bool) (*vflowProc, error) {
+	p, err := startVflowOnce(dir, ports, cfg, race)
+	for try := 0; err != nil && p != nil && try < 3 && strings.Contains(p.stderrText(), "address already in use") && e2eDropKeys == nil; try++ {
+		np, perr := pickPorts()
+		if perr != nil {
+			break
+		}
+		*(&ports) = np
+		p, err = startVflowOnce(dir, np, cfg, race)
+	}
+	return p, err
+}
+
+func startVflowOnce(dir string, ports e2ePorts, cfg e2eConfig, race bool) (*vflowProc, error) {
 	bin := os.Getenv("VERIF_VFLOW")
 	if race {
 		bin = os.Getenv("VERIF_VFLOW_RACE")
